@@ -8,6 +8,7 @@ mod oracle;
 mod pool_suite;
 mod reader_suite;
 mod rng;
+mod s2m_suite;
 mod srv;
 mod srv_suite;
 mod translate;
@@ -184,6 +185,12 @@ fn main() {
     "codec" => {
       let exhaustive = a.extra.get("exhaustive").is_some_and(|v| v == "1");
       let t = codec_suite::run_suite(a.seed, a.cases, exhaustive);
+      std::fs::write(&a.out, t).expect("write transcript");
+    },
+    "s2m" => {
+      let (rt, local) = local_rt();
+      let (seed, cases) = (a.seed, a.cases);
+      let t = local.block_on(&rt, async move { s2m_suite::run_suite(seed, cases).await });
       std::fs::write(&a.out, t).expect("write transcript");
     },
     "direct" => {
